@@ -5,7 +5,8 @@
      TexExpr.__match__, TexEnv.__match__, TexNode.__match__,
      TexNode.find_all / find / count / __getattr__
    (and the navigation views they are built on, see C04gen.v for the
-   vocabulary: call, run_node, of_item, args_ok, view_fuel).  search_regex is
+   vocabulary: call, run_node, of_item, args_ok, view_fuel), and the __str__
+   methods of TexNode / TexEnv / TexCmd / TexText / TexArgs.  search_regex is
    NOT translated (Model/Regex.v keeps its own hand model).
 
      qval q             the query as a value: QName s -> VStr s, QList l -> VStrs l
@@ -61,6 +62,38 @@ Theorem C03gen_match : forall v q d,
     = Some (VBool (match v with VNode _ e _ | VExpr _ e => match_item q e | _ => false end), d').
 Proof. exact run_match_ok. Qed.
 Print Assumptions C03gen_match.
+
+(* ---- str(x), which __match__ compares with a query containing { or [ : the
+   interpreter reads it as Tree.estr (estr_list for a TexArgs).  The __str__
+   methods of the source are translated too, and each of them, run on an object
+   of its class with that reading for the str() calls it makes on the parts,
+   returns that reading for the whole (ViewDSL.run_plain): Tree.estr is the
+   solution of the equations the source consists of *)
+Theorem C03gen_str_node : forall p e par h,
+  run_plain gen_v_cls gen_TexNode_str (VNode p e par) h = ODone (RVal (VStr (estr e))) h.
+Proof. exact gen_str_node_ok. Qed.
+Print Assumptions C03gen_str_node.
+
+Theorem C03gen_str_cmd : forall p n a b pos h,
+  run_plain gen_v_cls gen_TexCmd_str (VExpr p (ECmd n a b pos)) h
+  = ODone (RVal (VStr (estr (ECmd n a b pos)))) h.
+Proof. exact gen_str_cmd_ok. Qed.
+Print Assumptions C03gen_str_cmd.
+
+Theorem C03gen_str_env : forall p e h, is_env e = true ->
+  run_plain gen_v_cls gen_TexEnv_str (VExpr p e) h = ODone (RVal (VStr (estr e))) h.
+Proof. exact gen_str_env_ok. Qed.
+Print Assumptions C03gen_str_env.
+
+Theorem C03gen_str_text : forall p t h,
+  run_plain gen_v_cls gen_TexText_str (VExpr p (EText t)) h = ODone (RVal (VStr (estr (EText t)))) h.
+Proof. exact gen_str_text_ok. Qed.
+Print Assumptions C03gen_str_text.
+
+Theorem C03gen_str_args : forall l h,
+  run_plain gen_v_cls gen_TexArgs_str (VArgs l) h = ODone (RVal (VStr (estr_list l))) h.
+Proof. exact gen_str_args_ok. Qed.
+Print Assumptions C03gen_str_args.
 
 (* ---- find_all / find / count / __getattr__: one theorem per method *)
 
